@@ -1,6 +1,7 @@
 //! C03 — canonical k-mer column index is a dense ordered bijection matching the header.
 use crate::cli::{run_cli, sv};
-use crate::engine::{Ctx, Verdict};
+use crate::engine::{Ctx, Leg, Tier, Verdict};
+use proptest::prelude::*;
 use crate::model::{self, RankTable};
 use composition::oligo::OligoComputer;
 use kmer::kmer::KmerGenerator;
@@ -177,7 +178,26 @@ pub fn header_cases() -> Vec<HeaderCase> {
     out
 }
 
+/// rank tables built for the first time by several threads at once, several k per thread in any order
+pub struct Cold;
+impl Leg for Cold {
+    type Case = super::coldstart::Case;
+    const NAME: &'static str = "cold-start-threads";
+    fn strategy(_tier: Tier) -> BoxedStrategy<Self::Case> {
+        use super::coldstart::Op;
+        let op = prop_oneof![4 => 1usize..=6, 1 => 7usize..=8].prop_map(|k| Op::PosMaps { k }).boxed();
+        super::coldstart::case_strategy(op)
+    }
+    fn check(c: &Self::Case) -> Verdict {
+        super::coldstart::check(c, "cold-start-wrong-table")
+    }
+}
+
 pub fn run(ctx: &mut Ctx) {
+    let nc = ctx.share(ctx.tier.pick(300, 6_000));
+    ctx.run_leg::<Cold>(nc, false, 40);
+    super::coldstart::infra_inconclusive(ctx);
+
     let kmax = ctx.tier.pick(9, 11);
     for k in 1..=kmax {
         let mp = maps(k);
@@ -212,6 +232,7 @@ pub fn replay(leg: &str, case: &serde_json::Value) -> Option<Result<Verdict, Str
             let d = tempfile::tempdir().unwrap();
             Some(crate::engine::guarded(|| check_header(&c, d.path())))
         }
+        "cold-start-threads" => Some(crate::engine::replay_leg::<Cold>(case)),
         _ => None,
     }
 }
